@@ -9,7 +9,7 @@ EXPLANATION = (
     'diskcache, every parameter that reaches the producer call on the miss path must also reach the key (R1); the key '
     'must join its variable-length parts unambiguously (R2); cache_dir=None must bypass diskcache (R3); the producer '
     'call on the miss path must be the same call as the uncached path (R4); the key used for lookup is the key used for '
-    'the store and the stored object is the returned one (R5).  Crash points and damaged cache files are properties of '
+    'the store and the stored object is the returned one (R5); the file contents reach the key losslessly (R6); compiled state is kept in instances, never in class-level containers, which the pickled cache entry does not carry (R7).  Crash points and damaged cache files are properties of '
     'diskcache/sqlite/pickle (outside /repo) and are not decided.')
 ASSUMPTIONS = ['diskcache.Cache is transactional and returns what was stored (outside /repo)',
                'intraprocedural flow-insensitive dependency closure over-approximates what reaches the key']
@@ -249,6 +249,54 @@ def check(ctx):
             ctx.instance('C17.R5', '%s stored %s is returned' % (fq, var), 'ok' if ok else 'VIOLATION', node=store, file=F)
             if not ok:
                 ctx.violation('C17.R5', F, store, fq, 'the object returned on a miss is not the object stored', stmt='miss returns other object')
+    # ---- R7: what the cache stores is the pickled object graph of the Specification: instance attributes only.  State that compile-time
+    #      code keeps in a class-level (or module-level) container is not part of it, so a cache hit in a new process lacks it.
+    ctx.rule('C17.R7', 'compiled state lives in instances: no method writes into a class-level mutable container (lost by the pickled cache entry)')
+    n7 = 0
+    MUT = ('append', 'extend', 'insert', 'update', 'setdefault', 'add', 'pop', 'remove', 'clear', '__setitem__')
+    for m_ in model.modules.values():
+        if not (m_.rel.startswith('asn1tools/codecs/') or m_.rel == F):
+            continue
+        for c_ in m_.classes.values():
+            # class-level attributes with a mutable initial value that no method re-binds on the instance
+            cands = {}
+            for k_ in c_.mro():
+                for an, av in k_.attrs.items():
+                    if isinstance(av, (ast.Dict, ast.List, ast.Set)) or (isinstance(av, ast.Call) and isinstance(av.func, ast.Name) and av.func.id in ('dict', 'list', 'set', 'defaultdict', 'OrderedDict')):
+                        cands.setdefault(an, k_)
+            if not cands:
+                continue
+            rebound = set()
+            for k_ in c_.mro():
+                for g_ in k_.methods.values():
+                    for n_ in walk_no_nested(g_):
+                        if isinstance(n_, ast.Assign):
+                            for t_ in n_.targets:
+                                if isinstance(t_, ast.Attribute) and isinstance(t_.value, ast.Name) and t_.value.id == 'self':
+                                    rebound.add(t_.attr)
+            for g_ in c_.methods.values():
+                for n_ in walk_no_nested(g_):
+                    tgt = None
+                    if isinstance(n_, (ast.Assign, ast.AugAssign, ast.Delete)):
+                        for t_ in (n_.targets if not isinstance(n_, ast.AugAssign) else [n_.target]):
+                            if isinstance(t_, ast.Subscript):
+                                tgt = t_.value
+                    elif isinstance(n_, ast.Call) and isinstance(n_.func, ast.Attribute) and n_.func.attr in MUT:
+                        tgt = n_.func.value
+                    if not isinstance(tgt, ast.Attribute) or tgt.attr not in cands or tgt.attr in rebound:
+                        continue
+                    base_ = tgt.value
+                    through = (isinstance(base_, ast.Name) and base_.id in ('self', 'cls', c_.name)) or \
+                        (isinstance(base_, ast.Attribute) and base_.attr == '__class__') or (isinstance(base_, ast.Call) and isinstance(base_.func, ast.Name) and base_.func.id == 'type')
+                    if not through:
+                        continue
+                    n7 += 1
+                    ctx.instance('C17.R7', '%s writes class-level %s.%s' % (Model.qual(g_), cands[tgt.attr].name, tgt.attr), 'VIOLATION', node=n_, file=m_.rel)
+                    ctx.violation('C17.R7', m_.rel, n_, Model.qual(g_),
+                                  'the method stores into %s.%s, a container defined in the class body and shared by all instances: it is not part of the object graph that '
+                                  'compile_files(cache_dir=...) pickles, so a specification returned from the cache in another process lacks this state and behaves differently '
+                                  'from a fresh compile' % (cands[tgt.attr].name, tgt.attr), stmt=norm_stmt(Model.enclosing_stmt(n_)))
+    ctx.instance('C17.R7', 'classes of asn1tools/codecs and compiler.py: %d writes into class-level containers' % n7, 'ok' if n7 == 0 else 'VIOLATION', nontrivial=True)
     ctx.floor('C17.R1', 2)
     ctx.floor('C17.R3', 1)
     ctx.floor('C17.R4', 1)
@@ -289,3 +337,15 @@ REFACTORS = [
 
         return compiled""", ),
 ]
+
+MUTANTS.append(dict(name='compiled struct objects memoised in a class-level table', file='asn1tools/codecs/oer.py',
+                    old="""class Integer(Type):
+
+    def __init__(self, name):""", new="""class Integer(Type):
+
+    STRUCTS = {}
+
+    def remember(self, fmt):
+        self.STRUCTS[fmt] = fmt
+
+    def __init__(self, name):""", expect='C17.R7'))
